@@ -440,7 +440,7 @@ def worker(case: Dict[str, Any]) -> CaseResult:
                 count("expressions")
                 if len(sent) != 1:
                     violations.append(Violation(PROP, "document-sent", "expression %d: %d requests; outcome %s %s" % (ei, len(sent), status, value if status == "exc" else ""), fl, replay_case,
-                                                mech=(dirty_used[0] if dirty_used else "c14:document-sent")))
+                                                mech="c14:document-sent"))  # none of the listed mechanisms keeps a document from being sent
                     continue
                 body = sent[0]
                 key = json.dumps({"q": body.get("query"), "v": body.get("variables")}, sort_keys=True, default=str)
@@ -483,7 +483,7 @@ def worker(case: Dict[str, Any]) -> CaseResult:
                         if isinstance(x, dict):
                             return {k: ("*" if k == "key" else blank(v)) for k, v in x.items()}
                         return x
-                    mech = dirty_used[0] if dirty_used else "c14:faithful-shape"
+                    mech = "c14:faithful-shape"
                     if "builder.shared_field_mutation" in dirty and blank(got_shape) == blank(want_shape):
                         mech = "builder.shared_field_mutation"  # only response keys differ: aliases leaked through shared field objects
                     violations.append(Violation(PROP, "faithful-shape", "expression %d: document shape differs from the expression\n got  %s\n want %s" % (
@@ -495,7 +495,7 @@ def worker(case: Dict[str, Any]) -> CaseResult:
                     violations.append(Violation(PROP, "variables-declared-once", "expression %d: %r" % (ei, declared), fl, replay_case, mech="c14:declared-once"))
                 if status != "ok":
                     violations.append(Violation(PROP, "executes", "expression %d: %s: %s" % (ei, type(value).__name__, str(value)[:300]), fl, replay_case,
-                                                mech=(dirty_used[0] if dirty_used else "c14:executes")))
+                                                mech="c14:executes"))
                     continue
                 # resolver-received arguments == caller's values
                 want_args = []
@@ -521,7 +521,7 @@ def worker(case: Dict[str, Any]) -> CaseResult:
                     sup = {k: got.get(k) for k in args}
                     if sup != json.loads(json.dumps(args)):
                         violations.append(Violation(PROP, "arguments-delivered", "expression %d at %r: resolver received %r, caller passed %r" % (ei, p, sup, args), fl, replay_case,
-                                                    mech=(dirty_used[0] if dirty_used else "c14:arguments-delivered")))
+                                                    mech="c14:arguments-delivered"))
                     extra = {k: v for k, v in got.items() if k not in args and v is not None}
                 count("faithful_documents")
                 # ---- the same field OBJECTS used again in a later operation, at other top-level positions, give the document a fresh tree gives
